@@ -952,5 +952,64 @@ def r01_20(ctx):
     return r
 
 
+def r01_21(ctx):
+    """'Whenever the network subsequently delivers datagrams reliably ... the prefix grows to the full submitted sequence': a
+    T3 expiry takes EVERY outstanding chunk out of flight but marks only a burst of them for retransmission; the others
+    (in_flight = false, needs_retransmit = false, not acknowledged) are picked up by the following T3 cycles. So the
+    timer must keep running for every chunk that is neither acknowledged nor abandoned - whatever its in_flight /
+    needs_retransmit marks say. A predicate that also wants one of those marks leaves such chunks without any timer, and
+    with nothing in flight no probe either: the tail is never delivered. Decided: in handle_timeout the tests between the
+    sent-queue scan and `t3_expired = true` read only `acked`, `abandoned` and the expiry time - no other field of the
+    record, directly or through a method of ChunkRecord."""
+    r = RuleResult("R01.21", "K6", "the T3 timer covers every chunk that is neither acknowledged nor abandoned")
+    b = ctx.body(S + "handle_timeout::{closure#0}")
+    r.scope.append(b.name)
+    li = [i for i, l in enumerate(b.locals) if l.get("n") == "t3_expired"]
+    sets = [bi for bi, si, st in b.assigns() if st["p"]["l"] in li and "p" not in st["p"] and mir.int_value(b.term_rvalue(st["rv"])) == 1]
+    if not sets:
+        raise core.CheckerError("R01.21: `t3_expired = true` not found in handle_timeout")
+    # `t3_expired = true; break;` leaves the loop, so the store is an exit block of the scan loop, not a member of it
+    def near(blocks):
+        seen, work = set(), [(x, 0) for x in blocks]
+        while work:
+            x, d = work.pop()
+            for t, _ in b.succ_edges(x):
+                if t == sets[0]:
+                    return True
+                if t not in blocks and t not in seen and d < 3:
+                    seen.add(t)
+                    work.append((t, d + 1))
+        return False
+    loops = [set(blocks) for h, blocks in b.loops() if sets[0] in blocks or near(set(blocks))]
+    if not loops:
+        raise core.CheckerError("R01.21: the scan loop around `t3_expired = true` was not found")
+    region = min(loops, key=len)
+    other = ("in_flight", "needs_retransmit", "transmit_count", "fast_retransmit", "missing_reports")
+    bad = None
+    n = 0
+    for sb in sorted(region):
+        if b.blocks[sb]["t"]["k"] != "switch" or sb in b.cleanup:
+            continue
+        term, outs = b.switch_info(sb)
+        n += 1
+        if any(mir.has_field(term, f) for f in other):
+            bad = (sb, mir.show(term, 80))
+        for x in mir.walk(term):
+            if x[0] == "call" and "ChunkRecord::" in x[1] and ctx.facts.has_body(x[1]):
+                cb = ctx.facts.body(x[1])
+                if any(core.field_writes(cb, lambda f: False) or mir.has_field(cb.term_rvalue(st["rv"]), f)
+                       for _bi, _si, st in cb.assigns() for f in other) or \
+                        any(cb.blocks[k]["t"]["k"] == "switch" and any(mir.has_field(cb.switch_info(k)[0], f) for f in other) for k in range(len(cb.blocks))):
+                    bad = (sb, "%s reads %s" % (x[1].split("::")[-1], "/".join(other[:2])))
+    r.need("tests in the T3 expiry scan", n, 2)
+    if bad:
+        r.violate(b.name, "t3:narrowed", b.where(bad[0]),
+                  "the T3 expiry scan skips records by more than acked / abandoned (%s): chunks taken out of flight by an earlier expiry and "
+                  "not yet marked for retransmission have no timer any more - with nothing in flight nothing ever retransmits them" % bad[1])
+    else:
+        r.ok({"scan": "skips acknowledged / abandoned records only"})
+    return r
+
+
 def run(ctx):
-    return [r01_17(ctx), r01_18(ctx), r01_19(ctx), r01_1(ctx), r01_2(ctx), r01_3(ctx), r01_4(ctx), r01_5(ctx), r01_6(ctx), r01_7(ctx), r01_8(ctx), r01_9(ctx), r01_10(ctx), r01_11(ctx), r01_12(ctx), r01_13(ctx), r01_14(ctx), r01_15(ctx), r01_16(ctx), r01_20(ctx)]
+    return [r01_17(ctx), r01_18(ctx), r01_19(ctx), r01_1(ctx), r01_2(ctx), r01_3(ctx), r01_4(ctx), r01_5(ctx), r01_6(ctx), r01_7(ctx), r01_8(ctx), r01_9(ctx), r01_10(ctx), r01_11(ctx), r01_12(ctx), r01_13(ctx), r01_14(ctx), r01_15(ctx), r01_16(ctx), r01_20(ctx), r01_21(ctx)]
